@@ -49,6 +49,7 @@ func runCrashSim(run int, seed uint64) RunReport {
 		cfg.MaxImages = 1200
 	}
 	cr := newCrashRun(seed, cfg, "c")
+	liveCfg, liveOps = &cr.Cfg, &cr.Ops
 	cr.execute(nil, wr)
 	defer os.RemoveAll(cr.Dir)
 	if cr.Infeasible != "" {
